@@ -4,8 +4,9 @@
    rollup tool applies the same rule to previously written result files" -- and C09 -- leftovers of earlier runs).
 
    A directory is a function  f : Name -> set of row ids,
-       Name = [stem : sequence of one-character strings, td : "t" | "d" | "temp", lvl : the level word of the file name]
-   i.e. the file  <stem>.targets.<lvl>s / <stem>.decoys.<lvl>s / <stem>.temp.<lvl>s.
+       Name = [stem : sequence of one-character strings, td : "t" | "d" | "temp", lvl : the level word of the file name,
+               ext : "csv" (no suffix) | "pq" (.parquet)]
+   i.e. the file  <stem>.targets.<lvl>s[.parquet] / <stem>.decoys.<lvl>s[.parquet] / <stem>.temp.<lvl>s[.parquet].
    Rows : id -> [key : <<precursor, modified_peptide, peptide, peptide_group entity>>, tgt, rank]   (rank: HIGHER = BETTER).
 
    Level words.  The command line and the INPUT file names use  psm, precursor, modifiedpeptide, peptide, peptidegroup
@@ -35,22 +36,28 @@ OwnNoDot(stem, root) == IsPrefix(root, stem)                      \* seeded slip
 
 Put(f, n, c) == [m \in DOMAIN f \cup {n} |-> IF m = n THEN c ELSE f[m]]
 Del(f, N) == [m \in DOMAIN f \ N |-> f[m]]
-Nm(stem, td, lvl) == [stem |-> stem, td |-> td, lvl |-> lvl]
-InputNames(f, root, base) == {n \in DOMAIN f : n.lvl = base /\ n.td \in {"t", "d"} /\ ~Own(n.stem, root)}
+Nm(stem, td, lvl, ext) == [stem |-> stem, td |-> td, lvl |-> lvl, ext |-> ext]
+\* the format of a run (281-291): Parquet as soon as ANY file "*.<base>s.parquet" exists in the directory -- the tool's own earlier
+\* outputs and temp files included --, and a refusal (RuntimeError) when files "*.<base>s" of the other format exist as well
+HasFmt(f, base, x) == \E n \in DOMAIN f : n.lvl = base /\ n.ext = x
+Suffix(f, base) == IF HasFmt(f, base, "pq") THEN "pq" ELSE "csv"
+Refuses(f, base) == HasFmt(f, base, "pq") /\ HasFmt(f, base, "csv")
+InputNames(f, root, base) == {n \in DOMAIN f : n.lvl = base /\ n.td \in {"t", "d"} /\ n.ext = Suffix(f, base) /\ ~Own(n.stem, root)}
 InputRows(f, root, base) == UNION {f[n] : n \in InputNames(f, root, base)}
 
 \* ---- the rule (declarative): f2 is an acceptable directory after rolling up f with (root, base) ----
 LevelOK(Rows, f, f2, root, base, l) ==
    LET P == InputRows(f, root, base)
-       nt == Nm(root, "t", l)  nd == Nm(root, "d", l) IN
+       nt == Nm(root, "t", l, Suffix(f, base))  nd == Nm(root, "d", l, Suffix(f, base)) IN
    /\ nt \in DOMAIN f2 /\ nd \in DOMAIN f2
    /\ LevelSetOK(Rows, P, LvIdx(l), f2[nt] \cup f2[nd])                \* one row per entity, a best one among the inputs
    /\ \A x \in f2[nt] : Rows[x].tgt
    /\ \A x \in f2[nd] : ~Rows[x].tgt
 InputsUntouched(f, f2, root) == \A n \in DOMAIN f : ~Own(n.stem, root) => n \in DOMAIN f2 /\ f2[n] = f[n]
 RollOK(Rows, f, f2, root, base, cols) ==
-   /\ InputsUntouched(f, f2, root)
-   /\ \A l \in LevelsPromised(base, cols) : LevelOK(Rows, f, f2, root, base, l)
+   IF Refuses(f, base) THEN f2 = f                                     \* an explicit refusal writes nothing
+   ELSE /\ InputsUntouched(f, f2, root)
+        /\ \A l \in LevelsPromised(base, cols) : LevelOK(Rows, f, f2, root, base, l)
 \* leftovers never matter: the clean directory holds the input files only
 Clean(f, root) == Del(f, {n \in DOMAIN f : Own(n.stem, root)})
 TieFreeLevel(Rows, P, k) == \A x, y \in P : x # y /\ Rows[x].key[k] = Rows[y].key[k] => Rows[x].rank # Rows[y].rank
